@@ -85,20 +85,30 @@ Definition is_readdir (c : call) : bool := match c with CReadDir _ => true | _ =
 Definition significant (c : call) : bool :=
   match c with CRead _ _ | CReadDir _ => false | _ => true end.
 
+Definition take_order (c : call) (o : oracle) : option (list string) * list (list string) :=
+  if is_readdir c then
+    match o_orders o with [] => (None, []) | x :: l => (Some x, l) end
+  else (None, o_orders o).
+
+Definition do_call (w : world) (o : oracle) (c : call) (ord : option (list string)) : fs * res :=
+  let e := mkEnv (o_gran o) (o_atime o) ord in
+  match o_fault o with
+  | Some (n, er) => if (significant c && Nat.eqb n (o_ncalls o))%bool then (w_fs w, RErr er) else sem (w_fs w) e c
+  | None => sem (w_fs w) e c
+  end.
+
+Definition do_trigger (w : world) (o : oracle) (wt : N) : bool * N * list N :=
+  match observe (w_counter w) wt (o_draws o) with
+  | Some (f, c', ds') => (f, c', ds')
+  | None => (true, w_counter w, [])          (* out of scripted draws: treated as firing *)
+  end.
+
 Fixpoint run {A} (p : prog A) (w : world) (o : oracle) : A * world * oracle * list event :=
   match p with
   | Ret a => (a, w, o, [])
   | Call c k =>
-      let '(ord, orders') := if is_readdir c then
-                               match o_orders o with [] => (None, []) | x :: l => (Some x, l) end
-                             else (None, o_orders o) in
-      let e := mkEnv (o_gran o) (o_atime o) ord in
-      let faulted := match o_fault o with
-                     | Some (n, er) => if (significant c && Nat.eqb n (o_ncalls o))%bool then Some er else None
-                     | None => None end in
-      let '(f', r) := match faulted with
-                      | Some er => (w_fs w, RErr er)
-                      | None => sem (w_fs w) e c end in
+      let '(ord, orders') := take_order c o in
+      let '(f', r) := do_call w o c ord in
       let o' := mkOracle (o_times o) (o_draws o) (o_shards o) (o_fresh o) orders' (o_fault o) (if significant c then S (o_ncalls o) else o_ncalls o) (o_gran o) (o_atime o) in
       let '(a, w', o'', tr) := run (k r) (mkWorld f' (w_counter w) (w_loads w)) o' in
       (a, w', o'', EvCall c r :: tr)
@@ -108,11 +118,7 @@ Fixpoint run {A} (p : prog A) (w : world) (o : oracle) : A * world * oracle * li
       let '(a, w', o'', tr) := run (k t) (mkWorld (tick (w_fs w) t) (w_counter w) (w_loads w)) o' in
       (a, w', o'', EvNow t :: tr)
   | Trigger wt k =>
-      let '(fired, c', ds') :=
-        match observe (w_counter w) wt (o_draws o) with
-        | Some (f, c', ds') => (f, c', ds')
-        | None => (true, w_counter w, [])          (* out of scripted draws: treated as firing *)
-        end in
+      let '(fired, c', ds') := do_trigger w o wt in
       let o' := mkOracle (o_times o) ds' (o_shards o) (o_fresh o) (o_orders o) (o_fault o) (o_ncalls o) (o_gran o) (o_atime o) in
       let '(a, w', o'', tr) := run (k fired) (mkWorld (w_fs w) c' (w_loads w)) o' in
       (a, w', o'', EvTrigger wt fired :: tr)
